@@ -11,7 +11,7 @@ CaseOK == /\ Good(Ev.s, Ev.k, Ev.r[1], Ev.r[2])
           /\ Permuted(Ev.r, Ev.rp)
           /\ Affine(Ev.r, Ev.ra, Ev.a, Ev.b)
           /\ Ev.unchanged
-Call == LET ok == CaseOK IN ok \/ PrintT(<<"BAD", l>>)
+Call == IF CaseOK THEN TRUE ELSE PrintT(<<"BAD", l>>)
 TraceNext == l <= Len(Log) /\ l' = l + 1 /\ Call
 TraceSpec == TraceInit /\ [][TraceNext]_l
 Progress == TLCSet(1, IF l > TLCGet(1) THEN l ELSE TLCGet(1))
